@@ -164,6 +164,50 @@ theorem deriv_congr (S : List Charset) (a b : Int) (hab : ∀ c ∈ S, memB a c 
     simp only [deriv, ih h]
   | ext n => rfl
 
+theorem csSub_headsRep (hr r : Regex) (nr : Bool) (S : List Charset) (hhr : CsSub hr S) (hr' : CsSub r S) :
+    ∀ (fuel mn : Nat) (mx : Option Nat), CsSub (headsRep hr nr r fuel mn mx) S := by
+  intro fuel
+  induction fuel with
+  | zero =>
+    intro mn mx
+    simp only [headsRep]
+    split
+    · exact csSub_empty S
+    · exact csSub_seq _ _ S hhr (csSub_repS r _ _ S hr')
+  | succ fuel ih =>
+    intro mn mx
+    simp only [headsRep]
+    split
+    · exact csSub_empty S
+    · split
+      · exact csSub_union _ _ S (csSub_seq _ _ S hhr (csSub_repS r _ _ S hr')) (ih _ _)
+      · exact csSub_seq _ _ S hhr (csSub_repS r _ _ S hr')
+
+theorem csSub_heads (r : Regex) (S : List Charset) (h : CsSub r S) : CsSub (heads r) S := by
+  induction r with
+  | eps => exact csSub_empty S
+  | cc c => exact h
+  | cat a b iha ihb =>
+    rw [csSub_cat] at h
+    simp only [heads]
+    split
+    · exact csSub_union _ _ S (csSub_seq _ _ S (iha h.1) h.2) (ihb h.2)
+    · exact csSub_seq _ _ S (iha h.1) h.2
+  | alt a b iha ihb =>
+    rw [csSub_alt] at h
+    simp only [heads]
+    exact csSub_union _ _ S (iha h.1) (ihb h.2)
+  | rep r mn mx ih =>
+    simp only [heads]
+    exact csSub_headsRep _ r _ S (ih h) h _ _ _
+  | ext n => exact csSub_empty S
+
+theorem csSub_norm (r : Regex) (S : List Charset) (h : CsSub r S) : CsSub (norm r) S := by
+  unfold norm
+  split
+  · exact csSub_union _ _ S (csSub_eps S) (csSub_heads r S h)
+  · exact csSub_heads r S h
+
 /-- Vectors of expressions over the range lists `S`. -/
 def VecSub (D : List Regex) (S : List Charset) : Prop := ∀ d ∈ D, CsSub d S
 
@@ -172,14 +216,14 @@ theorem vecSub_stepVec (s : Int) (D : List Regex) (S : List Charset) (h : VecSub
   intro d hd
   simp only [stepVec, List.mem_map] at hd
   obtain ⟨d0, hd0, rfl⟩ := hd
-  exact csSub_deriv s d0 S (h d0 hd0)
+  exact csSub_norm _ S (csSub_deriv s d0 S (h d0 hd0))
 
 theorem stepVec_congr (S : List Charset) (a b : Int) (hab : ∀ c ∈ S, memB a c = memB b c)
     (D : List Regex) (h : VecSub D S) : stepVec a D = stepVec b D := by
   unfold stepVec
   apply List.map_congr_left
   intro d hd
-  exact deriv_congr S a b hab d (h d hd)
+  rw [deriv_congr S a b hab d (h d hd)]
 
 theorem vecSub_initVec (rules : List Rule) (sc : Int) : VecSub (initVec rules sc) (ruleSets rules) := by
   intro d hd
